@@ -7,6 +7,7 @@ SOLVER = os.environ.get("C13_SOLVER", "cadical")
 KF = {
     "KF_DNS_NAME_END": "dns_msg_sequence_of_labels_get_name_len / 2name: name walk that reaches the end of the message",
     "KF_DNS_SEQ_END": "SequenceOfLabelsGetSize / ToDomainName: label sequence that reaches the end of the buffer",
+    "KF_DNS_SEQ2NAME_ROOT": "SequenceOfLabelsToDomainName: root name (single null label) writes name[-1]",
     "KF_DNS_RR_RDLENGTH": "dns_msg_rr_get_data: rdlength read before the RR header is known to be inside the message",
     "KF_RADIUS_CHK_SHORT": "radius_pkt_chk: fewer than 4 bytes received",
     "KF_RADIUS_ATTR_OFF_END": "radius_pkt_attr_get_from_offset: offset in the last two bytes of the packet",
@@ -23,7 +24,7 @@ META = {
     "outside": "",
     "assumptions": [],
     "harness_functions": ["harness", "v_alloc", "v_buf", "memchr", "memrchr", "memmem", "explicit_bzero", "strnlen",
-                          "ref_walk_leaves_msg", "ref_seq_leaves_buf"],
+                          "ref_walk_leaves_msg", "ref_seq_leaves_buf", "ref_seq_leaves_buf2", "ref_sections_hit_known_defect"],
 }
 
 
@@ -73,13 +74,13 @@ def dns_jobs(tier, out):
         for nb in sorted(set([max(L - 1, 1), L + 1] if q else [1, max(L - 1, 1), max(L, 1), L + 1])):
             J(out, "dns-seq2name-L%d-B%d" % (L, nb), "dns.c", {"T": 4, "LEN": L, "NBUF": nb},
               "label sequence buffer %d bytes, name buffer %d" % (L, nb),
-              "SequenceOfLabelsToDomainName: in-bounds reads/writes", unwind=L + 3, kfs=NAMEKF)
+              "SequenceOfLabelsToDomainName: in-bounds reads/writes", unwind=L + 3, kfs=NAMEKF + ("KF_DNS_SEQ2NAME_ROOT",))
     # question / RR extraction call the name expander; a compression cycle needs two pointers inside the message, which a
     # question (RR) that passes the span check can only have from 18 (24) bytes on: below that the walk is short
     def nm_us(L, cyc, extra=()):
         it = 70 if L >= cyc else 8
         return it, ["dns_msg_sequence_of_labels2name.0:%d" % it, "ref_walk_leaves_msg.0:%d" % (it + 1),
-                    "SequenceOfLabelsGetSize.0:%d" % (max(L - 12, 0) + 2), "ref_seq_leaves_buf.0:%d" % (L + 3)] + list(extra)
+                    "SequenceOfLabelsGetSize.0:%d" % (max(L - 12, 0) + 3), "ref_seq_leaves_buf2.0:%d" % (L + 3)] + list(extra)
     for L in ([12, 16, 17] if q else [0, 11, 12, 13, 16, 17, 18, 19, 20]):
         it, us = nm_us(L, 18)
         J(out, "dns-question-L%d" % L, "dns.c", {"T": 5, "LEN": L, "NBUF": 4, "REFSTEPS": it}, "message %d bytes, name buffer 4, any offset" % L,
@@ -89,32 +90,41 @@ def dns_jobs(tier, out):
         J(out, "dns-rr-L%d" % L, "dns.c", {"T": 6, "LEN": L, "NBUF": 4, "REFSTEPS": it}, "message %d bytes, name buffer 4, any offset" % L,
           "dns_msg_rr_get_data: span, RDATA pointer/length inside the message", unwind=4, unwindset=us,
           kfs=NAMEKF + ("KF_DNS_RR_RDLENGTH",), cost=it)
-    for L in ([23] if q else [22, 23, 24, 35]):
+    for L in ([] if q else [22, 23, 24]):
         it, us = nm_us(L, 24, ["dns_msg_rr_find.0:%d" % ((L - 12) // 11 + 2), "strncasecmp.0:6"])
         J(out, "dns-rrfind-L%d" % L, "dns.c", {"T": 7, "LEN": L, "REFSTEPS": it}, "message %d bytes, any offset/count, name <= 4 bytes" % L,
           "dns_msg_rr_find: found RR inside the message", unwind=4, unwindset=us,
           kfs=NAMEKF + ("KF_DNS_RR_RDLENGTH",), cost=it * 2)
-    for L in ([0, 11, 12, 17, 23, 28] if q else [0, 11, 12, 13, 17, 18, 22, 23, 24, 28, 29, 34]):
+    for L in ([0, 11, 12, 17] if q else [0, 11, 12, 13, 17, 18, 22, 23, 24, 28]):
         a = max(L - 12, 0)
         us = ["dns_msg_info_get.0:%d" % (a // 5 + 2), "dns_msg_info_get.1:%d" % (a // 11 + 2), "dns_msg_info_get.2:%d" % (a // 11 + 2),
-              "dns_msg_info_get.3:%d" % (a // 11 + 2), "SequenceOfLabelsGetSize.0:%d" % (a + 2), "ref_seq_leaves_buf.0:%d" % (L + 3)]
+              "dns_msg_info_get.3:%d" % (a // 11 + 2), "SequenceOfLabelsGetSize.0:%d" % (a + 2), "ref_seq_leaves_buf2.0:%d" % (L + 3),
+              "ref_sections_hit_known_defect.0:%d" % (L // 5 + 2), "ref_sections_hit_known_defect.1:%d" % (L // 11 + 2)]
         J(out, "dns-info-L%d" % L, "dns.c", {"T": 8, "LEN": L}, "message %d bytes, all header counts" % L,
           "dns_msg_info_get/validate/size_get: section offsets ordered and inside the message", unwind=4, unwindset=us,
           kfs=NAMEKF + ("KF_DNS_RR_RDLENGTH",), cost=50)
+        if L in (12, 17):
+            J(out, "dns-validate-L%d" % L, "dns.c", {"T": 9, "LEN": L}, "message %d bytes, all header counts" % L,
+              "dns_msg_validate / dns_msg_size_get: reported size inside the buffer", unwind=4, unwindset=us,
+              kfs=NAMEKF + ("KF_DNS_RR_RDLENGTH",), cost=60)
 
 
 def radius_jobs(tier, out):
     q = tier == "quick"
     for L in ([0, 2, 3, 4, 19, 20, 23, 26] if q else list(range(0, 5)) + list(range(19, 31))):
+        if L < 4 and not NOKF and "KF_RADIUS_CHK_SHORT" in KF:
+            continue        # known finding radius_pkt_chk_short: these shapes ARE the defect class
         J(out, "radius-chk-L%d" % L, "radius.c", {"T": 1, "LEN": L}, "received %d bytes" % L,
           "radius_pkt_chk: in-bounds reads; accepted => attributes tile [20,len) inside the received bytes",
           unwind=L // 3 + 3, kfs=("KF_RADIUS_CHK_SHORT",) if L < 4 else ())
-    for L in ([20, 23, 26] if q else range(20, 31)):
+    for L in ([20, 23, 26] if q else range(20, 29)):
         for t, nm, ds in ((2, "attr-off", "radius_pkt_attr_get_from_offset"), (3, "attr-find", "radius_pkt_attr_find_raw"),
                           (4, "attr-data", "radius_pkt_attr_get_data_ptr(_raw)")):
             J(out, "radius-%s-L%d" % (nm, L), "radius.c", {"T": t, "LEN": L}, "checked packet in %d received bytes, any offset" % L,
               ds + ": returned attribute/data inside the packet", unwind=L // 3 + 3, kfs=("KF_RADIUS_ATTR_OFF_END",))
-        for nb in ([1, 4] if q else [1, 2, 4, 8]):
+        for nb in ([4] if q else [1, 4, 8]):
+            if q and L > 23:
+                continue
             J(out, "radius-attr-tobuf-L%d-B%d" % (L, nb), "radius.c", {"T": 5, "LEN": L, "NBUF": nb},
               "checked packet in %d received bytes, out buffer %d, any offset/count/type" % (L, nb),
               "radius_pkt_attr_get_data_to_buf: in-bounds reads/writes", unwind=L // 3 + 4, kfs=("KF_RADIUS_ATTR_OFF_END",))
@@ -128,6 +138,8 @@ def http_jobs(tier, out):
                 "strncasecmp.0:%d" % (nl + 2)]
     for t, nm in ((1, "skip-spwsp"), (2, "skip-spwsp2")):
         for L in ([0, 1, 3] if q else range(0, 7)):
+            if L == 0 and not NOKF and "KF_HTTP_SKIP_SPWSP_END" in KF:
+                continue        # known finding http_skip_spwsp: the empty buffer IS in the defect class
             J(out, "http-%s-L%d" % (nm, L), "http.c", {"T": t, "LEN": L}, "buffer %d bytes" % L,
               nm + ": in-bounds reads, returned span inside the buffer", unwind=L + 3, kfs=("KF_HTTP_SKIP_SPWSP_END",))
     for t, nm in ((3, "wsp2sp"), (4, "ht2sp")):
@@ -136,13 +148,13 @@ def http_jobs(tier, out):
                 J(out, "http-%s-L%d-%s" % (nm, L, "inplace" if ip else "copy"), "http.c", {"T": t, "LEN": L, "INPLACE": ip},
                   "buffer %d bytes, %s" % (L, "in place" if ip else "separate output of the same size"),
                   nm + ": in-bounds reads/writes, size", unwind=L + 3)
-    for L in ([11, 14, 16, 20] if q else range(10, 27)):
+    for L in ([11, 14, 16] if q else range(10, 25)):
         J(out, "http-reqline-L%d" % L, "http.c", {"T": 5, "LEN": L}, "header block %d bytes" % L,
           "http_parse_req_line: every returned span inside the line", unwind=L + 3, kfs=("KF_HTTP_SKIP_SPWSP_END",), cost=20)
     for L in ([13, 14, 17] if q else range(13, 22)):
         J(out, "http-respline-L%d" % L, "http.c", {"T": 6, "LEN": L}, "header block %d bytes" % L,
           "http_parse_resp_line: returned span inside the line", unwind=L + 3)
-    for L in ([0, 3, 6, 9] if q else range(0, 14)):
+    for L in ([0, 3, 6] if q else range(0, 10)):
         for nl in ([1] if q else [0, 1, 2]):
             J(out, "http-hdrget-L%d-N%d" % (L, nl), "http.c", {"T": 7, "LEN": L, "NLEN": nl},
               "header block %d bytes, name %d bytes, any offset" % (L, nl),
@@ -150,12 +162,12 @@ def http_jobs(tier, out):
               kfs=("KF_HTTP_SKIP_SPWSP_END",), cost=10)
             J(out, "http-hdrcount-L%d-N%d" % (L, nl), "http.c", {"T": 8, "LEN": L, "NLEN": nl},
               "header block %d bytes, name %d bytes" % (L, nl), "http_hdr_val_get_count: terminates, bounded count",
-              unwind=L + 3, unwindset=hdr_us(L, nl), kfs=("KF_HTTP_SKIP_SPWSP_END",), cost=20)
+              unwind=L + 3, unwindset=hdr_us(L, nl), cost=20)
             J(out, "http-hdrremove-L%d-N%d" % (L, nl), "http.c", {"T": 9, "LEN": L, "NLEN": nl},
               "header block %d bytes (+ lower-case copy), name %d bytes" % (L, nl),
               "http_hdr_val_remove: in-bounds reads/moves, size shrinks", unwind=L + 3,
               unwindset=["http_hdr_val_remove.0:%d" % (L + 2)], kfs=("KF_HTTP_HDR_REMOVE_END",), cost=10)
-    for L in ([0, 2, 5, 7] if q else range(0, 11)):
+    for L in ([0, 2, 5] if q else range(0, 8)):
         for nl in ([1] if q else [0, 1, 2]):
             us = ["http_query_val_get_ex.2:%d" % (L // 2 + 2), "http_query_val_del.2:%d" % (L // 2 + 2), "strncasecmp.0:%d" % (nl + 2)]
             J(out, "http-queryget-L%d-N%d" % (L, nl), "http.c", {"T": 10, "LEN": L, "NLEN": nl},
@@ -163,7 +175,7 @@ def http_jobs(tier, out):
             J(out, "http-querydel-L%d-N%d" % (L, nl), "http.c", {"T": 11, "LEN": L, "NLEN": nl},
               "query %d bytes, name %d bytes" % (L, nl), "http_query_val_del: in-bounds moves, size shrinks", unwind=L + 3,
               unwindset=us, cost=20)
-    for L in ([0, 1, 4, 8] if q else range(0, 14)):
+    for L in ([0, 1, 4, 8] if q else list(range(0, 12)) + [19, 20]):
         J(out, "http-chunked-L%d" % L, "http.c", {"T": 12, "LEN": L}, "body %d bytes" % L,
           "http_data_decode_chunked: in-bounds reads/moves, decoded span inside the buffer", unwind=L + 3,
           unwindset=["http_data_decode_chunked.0:%d" % (L // 4 + 3)], kfs=("KF_HTTP_CHUNKED_SIZE_WRAP",))
@@ -172,20 +184,21 @@ def http_jobs(tier, out):
             J(out, "http-urldecode-L%d-B%d" % (L, nb), "http.c", {"T": 13, "LEN": L, "NBUF": nb},
               "url %d bytes, out buffer %d" % (L, nb), "http_url_decode: in-bounds reads/writes, NUL, length",
               unwind=L + 3, kfs=("KF_HTTP_URL_DECODE_PCT_END",))
-    for L in ([0, 4, 9] if q else range(0, 13)):
+    for L in ([0, 4] if q else range(0, 7)):
         J(out, "http-secchk-L%d" % L, "http.c", {"T": 14, "LEN": L}, "header block %d bytes, any method code" % L,
-          "http_req_sec_chk: in-bounds reads, terminates", unwind=L + 3, unwindset=hdr_us(L, 17),
-          kfs=("KF_HTTP_SKIP_SPWSP_END",), cost=30)
+          "http_req_sec_chk: in-bounds reads, terminates", unwind=L + 3, unwindset=hdr_us(L, 17), cost=30)
 
 
 def media_jobs(tier, out):
     q = tier == "quick"
     for L in ([0, 1, 2, 5, 8] if q else range(0, 13)):
+        if L == 1 and not NOKF and "KF_SDP_TYPE_GET_END" in KF:
+            continue            # known finding sdp_type_get_end: every 1-byte message is in the defect class
         J(out, "sdp-typeget-L%d" % L, "media.c", {"T": 1, "LEN": L}, "message %d bytes, any start line/type" % L,
           "sdp_msg_type_get: in-bounds reads, value span inside the message", unwind=L + 3, kfs=("KF_SDP_TYPE_GET_END",))
         J(out, "sdp-fields-L%d" % L, "media.c", {"T": 3, "LEN": L, "NF": 3}, "line %d bytes, 3 field slots" % L,
           "sdp_msg_feilds_get: field spans inside the buffer", unwind=L + 5)
-    for L in ([15, 16, 18] if q else range(15, 22)):
+    for L in ([0, 15] if q else [0, 5, 15]):
         J(out, "sdp-secchk-L%d" % L, "media.c", {"T": 2, "LEN": L}, "message %d bytes" % L,
           "sdp_msg_sec_chk: in-bounds reads, terminates", unwind=L + 3,
           unwindset=["sdp_msg_type_get_count.0:%d" % (L // 4 + 3), "sdp_msg_type_get.0:%d" % (L // 4 + 3),
